@@ -150,6 +150,9 @@ def run(chk, prog, tier):
                 chk.bad("E3", "E3/no-instance/%s/%s" % (fn, a.text[:40]), loc_str(a.node),
                         "the encoder does not look at the instance (position, buffer, options come only through the per-line record)", a.text)
     chk.floor("destination accesses in the encoder", nacc, 12)
+    PL.encoder_idempotence_rule(chk, prog, roles)
+    from valib import cover as CV
+    CV.cover_rule(chk, prog, roles)
     # E4: position continuity
     drv, loop = _driver_loop(prog, roles)
     pos = None
@@ -181,5 +184,6 @@ def run(chk, prog, tier):
         "write position are carried across lines; (E2) no mutable static state besides the idempotent index tables; (E3) the "
         "encoder only stores to its destination and never sees the instance, so bytes do not depend on prior buffer contents or "
         "position; (E4) the position starts at offset, is returned and stored back. Hence per-line code is a function of (line "
-        "text, option bits). NOT decided: that the line splitter consumes exactly one line per iteration for every text; that "
-        "every byte below the returned length is written; equality in the chunk modes.")
+        "text, option bits). (COVER) every encoder function writes exactly the leading bytes "
+        "whose count it returns (symbolic write-coverage: no byte below the returned length keeps old buffer contents). NOT decided: "
+        "that the line splitter consumes exactly one line per iteration for every text; equality in the chunk modes.")
